@@ -38,13 +38,29 @@ type fakeT struct {
 func newFakeT(name string) *fakeT { return &fakeT{name: name} }
 
 func (f *fakeT) Helper() {}
+// Skip, Skipf and SkipNow do not return, like the methods of a real *testing.T (runtime.Goexit): whatever the library
+// does after calling them never happens. The harness calls the library's wrappers through callSkip, which absorbs the exit.
+type fakeSkipExit struct{}
+
 func (f *fakeT) Skip(a ...any) {
 	f.mu.Lock()
 	f.skipped = true
 	f.mu.Unlock()
+	panic(fakeSkipExit{})
 }
 func (f *fakeT) Skipf(s string, a ...any) { f.Skip() }
 func (f *fakeT) SkipNow()                 { f.Skip() }
+
+func callSkip(fn func()) {
+	defer func() {
+		if r := recover(); r != nil {
+			if _, ok := r.(fakeSkipExit); !ok {
+				panic(r)
+			}
+		}
+	}()
+	fn()
+}
 func (f *fakeT) Name() string             { return f.name }
 func (f *fakeT) Error(a ...any) {
 	f.mu.Lock()
